@@ -414,3 +414,30 @@ benign("open_lock_error_mapped", ["C17"], "src/db.rs",
             Ok(lock) => Some(lock),
             Err(lock_err) => return Err(lock_err.into()),
         };""")
+
+# ---- added with the ROLE-3 / PAIR-6 / eviction rules
+mut("oversized_writer_marked_done", ["C05"], "PAIR-6", file="src/db.rs",
+    old="""            let curr_writer_batch = writer.maybe_batch().unwrap();
+            batch_size += curr_writer_batch.get_approximate_size();
+            if batch_size > max_size {""",
+    new="""            let curr_writer_batch = writer.maybe_batch().unwrap();
+            batch_size += curr_writer_batch.get_approximate_size();
+            last_writer = writer;
+            if batch_size > max_size {""",
+    note="the writer whose batch did not fit is popped and acknowledged without having been written")
+mut("compaction_outputs_at_input_level", ["C07", "C10"], "ROLE-3", file="src/compaction/state.rs",
+    old="""        let parent_level = self.compaction_manifest.level() + 1;
+        for output_file in &self.output_files {""",
+    new="""        let parent_level = self.compaction_manifest.level();
+        for output_file in &self.output_files {""")
+mut("trivial_move_keeps_level", ["C07", "C10"], "ROLE-3", file="src/compaction/manifest.rs",
+    old="""        self.change_manifest.add_file(
+            self.level + 1,
+            file_to_compact.file_number(),""",
+    new="""        self.change_manifest.add_file(
+            self.level,
+            file_to_compact.file_number(),""")
+mut("deleted_table_stays_in_cache", ["C11"], "evict-before-delete", file="src/db.rs",
+    old="""                                table_cache.remove(table_number);
+                                files_to_delete.push(file);""",
+    new="""                                files_to_delete.push(file);""")
